@@ -82,6 +82,19 @@ def piek : P String := do
   let v := v.failIf (implSeq != expect) s!"PartialIndexEnumerator(keys) wrong_index_set {implSeq}"
   return v.render
 
+/-- `tipf sp keys vals | implIndex implExpanded` : toIndex(space, PartialFactors) and toFactors(F, pf) -/
+def tipf : P String := do
+  let sp ← P.nats; let keys ← P.nats; let vals ← P.nats; P.bar
+  let implI ← P.nat; let implE ← P.nats; P.eof
+  let v : Verdict := { tag := "tipf" }
+  let v := v.diffIf (toIndexPF sp keys vals != implI) s!"toIndex(space,PartialFactors) model={toIndexPF sp keys vals} impl={implI}"
+  let v := v.diffIf (expandFrom 0 sp keys vals != implE) s!"toFactors(F,PartialFactors) model={expandFrom 0 sp keys vals} impl={implE}"
+  -- property: the zero-filled expansion carries exactly the named values, and the partial index is its flat index
+  let specE := (List.range sp.length).map (fun p => (lookup p (keys.zip vals)).getD 0)
+  let v := v.failIf (implE != specE) s!"toFactors(F,PartialFactors) wrong_expansion {implE}"
+  let v := v.failIf (implI != toIndex sp implE) s!"toIndex(space,PartialFactors) not_flat_index_of_expansion {implI}"
+  return v.render
+
 def pairs : P (List (Nat × Nat)) := do
   let k ← P.nats; let v ← P.nats
   if k.length != v.length then P.fail else pure (k.zip v)
@@ -102,6 +115,20 @@ def merge : P String := do
   let v := v.failIf (im != specMatch) s!"match wrong_answer {im}"
   return v.render
 
+/-- `misc sp pf full other f | removed matchFP matchKeys joinLen` : removeFactor, match(Factors, pf), match(keys, lhs, rhs), join -/
+def misc : P String := do
+  let sp ← P.nats; let l ← pairs; let full ← P.nats; let other ← P.nats; let f ← P.nat; P.bar
+  let rk ← P.nats; let rv ← P.nats; let m1 ← P.bool; let m2 ← P.bool; let jn ← P.nats; P.eof
+  let v : Verdict := { tag := if sp.length ≤ 1 then "trivial" else "misc" }
+  let v := v.diffIf (removeFactor f l != rk.zip rv || rk.length != rv.length) s!"removeFactor model={removeFactor f l} impl={rk.zip rv}"
+  let v := v.failIf ((rk.zip rv) != l.filter (fun kv => kv.1 != f)) s!"removeFactor wrong_result {rk}"
+  let spec1 := l.all (fun kv => full.getD kv.1 0 == kv.2)
+  let v := v.failIf (m1 != spec1) s!"match(Factors,PartialFactors) wrong_answer {m1}"
+  let spec2 := l.all (fun kv => full.getD kv.1 0 == other.getD kv.1 0)
+  let v := v.failIf (m2 != spec2) s!"match(keys,Factors,Factors) wrong_answer {m2}"
+  let v := v.failIf (jn != full ++ other) s!"join wrong_concatenation"
+  return v.render
+
 def handle (toks : List String) : String :=
   let r := match toks with
     | "rt" :: rest => P.run rt rest
@@ -110,6 +137,8 @@ def handle (toks : List String) : String :=
     | "pie" :: rest => P.run pie rest
     | "merge" :: rest => P.run merge rest
     | "piek" :: rest => P.run piek rest
+    | "tipf" :: rest => P.run tipf rest
+    | "misc" :: rest => P.run misc rest
     | _ => DrvC14b.handle toks
   r.getD "bad-op"
 
